@@ -8,7 +8,7 @@ use ec_core::distributions::collection::ConvertToCollectionGenerator;
 use ec_core::distributions::conversion::IntoDistribution;
 use ec_core::operator::mutator::Mutator;
 use ec_core::operator::recombinator::Recombinator;
-use ec_linear::genome::bitstring::Bitstring;
+use ec_linear::genome::bitstring::{Bitstring, BoolGenerator};
 use ec_linear::genome::vector::Vector;
 use ec_linear::mutator::umad::Umad;
 use ec_linear::mutator::with_one_over_length::WithOneOverLength;
@@ -597,6 +597,70 @@ fn bitstring_jobs(seed: u64, jobs: &mut Vec<Job>) {
     }
 }
 
+/// `BoolGenerator` (the element generator behind random bitstrings) used directly, through a collection
+/// generator, and after being *re-tuned*: its probability and the collection generator's size are public
+/// fields, and what is configured at the time of sampling is what must act.
+fn bool_generator_jobs(seed: u64, jobs: &mut Vec<Job>) {
+    let ps = rates(seed ^ 0xB001, 3);
+    for (k, p) in ps.iter().copied().enumerate() {
+        let before = ps[(k + 3) % ps.len()];
+        for mode in 0..4u8 {
+            let label = match mode {
+                0 => format!("BoolGenerator::new({p}) sampled directly"),
+                1 => format!("BoolGenerator::new({p}).into_collection_generator(9) as a Bitstring"),
+                2 => format!("BoolGenerator::new({before}), sampled, then true_probability = {p}"),
+                _ => format!("BoolGenerator::new({before}).into_collection_generator(4), sampled, then element_generator.true_probability = {p} and size = 9"),
+            };
+            jobs.push(job(label.clone(), move |n, seed| {
+                let mut rng = StdRng::seed_from_u64(seed);
+                let sig = if mode >= 2 { "BoolGenerator/reconfigured-probability-not-applied" } else { "BoolGenerator/bit-probability" };
+                match mode {
+                    0 | 2 => {
+                        let mut g = BoolGenerator::new(if mode == 0 { p } else { before });
+                        if mode == 2 {
+                            for _ in 0..5 {
+                                let _: bool = g.sample(&mut rng);
+                            }
+                            g.true_probability = p;
+                        }
+                        let mut ones = 0u64;
+                        for _ in 0..n {
+                            ones += u64::from(g.sample(&mut rng));
+                        }
+                        Ok(vec![Stat::new(sig, format!("{label}: true"), ones, n, p)])
+                    }
+                    _ => {
+                        let mut g = BoolGenerator::new(if mode == 1 { p } else { before }).into_collection_generator(if mode == 1 { 9 } else { 4 });
+                        if mode == 3 {
+                            for _ in 0..3 {
+                                let _: Bitstring = g.sample(&mut rng);
+                            }
+                            g.element_generator.true_probability = p;
+                            g.size = 9;
+                        }
+                        let muts = n / 8;
+                        let mut at = vec![0u64; 9];
+                        for _ in 0..muts {
+                            let b: Bitstring = g.sample(&mut rng);
+                            if b.bits.len() != 9 {
+                                return Err(Fail::new("BoolGenerator/size", format!("{label}: {} bits", b.bits.len())));
+                            }
+                            for i in 0..9 {
+                                at[i] += u64::from(b.bits[i]);
+                            }
+                        }
+                        let mut v = vec![Stat::new(sig, format!("{label}: bits set"), at.iter().sum(), muts * 9, p)];
+                        for (i, c) in at.iter().enumerate() {
+                            v.push(Stat::new(sig, format!("{label}: bit {i} set"), *c, muts, p));
+                        }
+                        Ok(v)
+                    }
+                }
+            }));
+        }
+    }
+}
+
 /// instruction j with weight j+1
 struct Skewed(Vec<PushInstruction>);
 impl Distribution<PushInstruction> for Skewed {
@@ -730,7 +794,7 @@ fn gene_generator_jobs(jobs: &mut Vec<Job>) {
 
 pub fn run(ctx: &mut Ctx) {
     let trials = ctx.tier.pick(2_000_000u64, 40_000_000);
-    ctx.rule = format!("one job per (operator, configuration): WithRate / WithOneOverLength flips (total, per position, adjacent pairs = p^2) on Vec<bool> and Bitstring over a rate grid incl. generated rates and lengths 1..64; UMAD four-outcome law on a single gene, survivor / new-gene rates on Vector and Plushy genomes and the empty-genome addition rate of all three constructors; very small positive rates (1e-7, and 1/length for 2^23 + 9 genes) still flip genes (window check only, no law); uniform crossover per position; long genomes (130 and 600 genes) through UniformXo, WithRate, Bitstring::random*, and UMAD deletions / additions with per-position rates and the agreement law p^2+(1-p)^2 of disjoint position pairs at lags 1..257 (independence beyond any machine-word or byte-counter period); Bitstring::random / random_with_probability per bit; GeneGenerator close probability (default 1/(n+1) and explicit) and instruction frequencies (uniform and skewed) for n in 1..20. {trials} seeded trials per job, each statistic compared with its exact law (p = 0 and p = 1 decided exactly). non-trivial = a (statistic, configuration) pair with 0 < p < 1, counted once");
+    ctx.rule = format!("one job per (operator, configuration): WithRate / WithOneOverLength flips (total, per position, adjacent pairs = p^2) on Vec<bool> and Bitstring over a rate grid incl. generated rates and lengths 1..64; UMAD four-outcome law on a single gene, survivor / new-gene rates on Vector and Plushy genomes and the empty-genome addition rate of all three constructors; very small positive rates (1e-7, and 1/length for 2^23 + 9 genes) still flip genes (window check only, no law); uniform crossover per position; long genomes (130 and 600 genes) through UniformXo, WithRate, Bitstring::random*, and UMAD deletions / additions with per-position rates and the agreement law p^2+(1-p)^2 of disjoint position pairs at lags 1..257 (independence beyond any machine-word or byte-counter period); Bitstring::random / random_with_probability per bit; BoolGenerator directly, as the element generator of a collection generator, and re-tuned after use (true_probability, size); GeneGenerator close probability (default 1/(n+1) and explicit) and instruction frequencies (uniform and skewed) for n in 1..20. {trials} seeded trials per job, each statistic compared with its exact law (p = 0 and p = 1 decided exactly). non-trivial = a (statistic, configuration) pair with 0 < p < 1, counted once");
     ctx.assumptions.push("not detectable: < vs <= on a continuous draw, f32/f64 rounding of a rate (< 1e-7), rate errors below the stated resolution".into());
     let mut jobs = vec![];
     flip_jobs(ctx.seed, &mut jobs);
@@ -740,6 +804,7 @@ pub fn run(ctx: &mut Ctx) {
     uniform_xo_jobs(&mut jobs);
     long_genome_jobs(&mut jobs);
     bitstring_jobs(ctx.seed, &mut jobs);
+    bool_generator_jobs(ctx.seed, &mut jobs);
     gene_generator_jobs(&mut jobs);
     run_jobs(ctx, "rate_laws", jobs, trials);
 }
